@@ -121,6 +121,13 @@ static void bodyLoadSave(const std::string& dir, const std::string& input, Diges
     OPB; std::unique_ptr<C3D> c2; oc = guarded([&] { c2.reset(new C3D(p)); }); d.add(std::string("reload ") + outcomeName(oc)); if (oc == OK) snapTo(d, *c2, "reloaded");
     OPB; c2.reset(); c.reset(); d.add("destroyed");
 }
+// saves into a directory SHARED with the other thread, under names that differ from the other thread's only in the extension (and extension-less ones): different paths all the same
+static void bodySharedSaves(const std::string& dir, const std::string& input, Digest& d) {
+    OPB; std::unique_ptr<C3D> c; Outcome oc = guarded([&] { c.reset(new C3D(input)); }); d.add(std::string("load ") + outcomeName(oc)); if (oc != OK) return;
+    std::string shared = dir.substr(0, dir.rfind('/')) + "/shared.dir"; mkdir(shared.c_str(), 0755); std::string tid = dir.substr(dir.rfind('/') + 1);
+    for (std::string p2 : {shared + "/trial." + tid, shared + "/" + tid}) { OPB; unlink(p2.c_str()); oc = guarded([&] { c->write(p2); }); d.add(std::string("save-shared ") + outcomeName(oc)); fileTo(d, p2, "shared-file"); }
+    OPB; c.reset(); d.add("destroyed");
+}
 static void bodyBuild(const std::string& dir, int variant, Digest& d) {
     OPB; C3D c; snapTo(d, c, "fresh");
     OPB; c.point("A"); c.point(variant ? "Q" : "B"); c.analog("a"); snapTo(d, c, "declared");
@@ -189,6 +196,8 @@ static std::vector<BodyDef> makeBodies(const std::string& scratch) {
     b.push_back({"pair.B", [](const std::string& d, Digest& g) { bodyPairEdit(1, d, g); }, true});
     b.push_back({"freshlock(POINT)", [](const std::string& d, Digest& g) { bodyFreshLock(d, "POINT", g); }});
     b.push_back({"freshlock(ANALOG)", [](const std::string& d, Digest& g) { bodyFreshLock(d, "ANALOG", g); }});
+    b.push_back({"sharedsave(A)", [fA](const std::string& d, Digest& g) { bodySharedSaves(d, fA, g); }});
+    b.push_back({"sharedsave(C)", [fC](const std::string& d, Digest& g) { bodySharedSaves(d, fC, g); }});
     b.push_back({"edit(M)", [fM](const std::string& d, Digest& g) { bodyEdit(d, fM, g); }});
     b.push_back({"edit(R)", [fR](const std::string& d, Digest& g) { bodyEdit(d, fR, g); }});
     b.push_back({"loadsave(U)", [fU](const std::string& d, Digest& g) { bodyLoadSave(d, fU, g); }});
@@ -267,7 +276,7 @@ int main(int argc, char** argv) {
     bool thorough = tier == "thorough";
     std::vector<BodyDef> defs = makeBodies(scratch);
     auto idx = [&](const std::string& n) { for (size_t i = 0; i < defs.size(); ++i) if (defs[i].name == n) return (int)i; return -1; };
-    std::vector<std::vector<int>> groups = {{idx("loadsave(U)"), idx("loadsave(U')")}, {idx("loadsave(A)"), idx("loadsave(A')")}, {idx("loadsave(A)"), idx("build(0)")}, {idx("build(0)"), idx("build(1)")}, {idx("loadsave(B)"), idx("edit(C)")}, {idx("edit(M)"), idx("edit(C)")}, {idx("pair.A"), idx("pair.B")}, {idx("freshlock(POINT)"), idx("freshlock(ANALOG)")}};
+    std::vector<std::vector<int>> groups = {{idx("loadsave(U)"), idx("loadsave(U')")}, {idx("loadsave(A)"), idx("loadsave(A')")}, {idx("loadsave(A)"), idx("build(0)")}, {idx("build(0)"), idx("build(1)")}, {idx("loadsave(B)"), idx("edit(C)")}, {idx("edit(M)"), idx("edit(C)")}, {idx("pair.A"), idx("pair.B")}, {idx("freshlock(POINT)"), idx("freshlock(ANALOG)")}, {idx("sharedsave(A)"), idx("sharedsave(C)")}};
     if (thorough) { groups.push_back({idx("edit(C)"), idx("build(1)")}); groups.push_back({idx("loadsave(A)"), idx("loadsave(B)")}); groups.push_back({idx("loadsave(A)"), idx("build(0)"), idx("edit(C)")}); groups.push_back({idx("edit(M)"), idx("edit(R)")}); }
     auto jstr = [](const std::string& s) { std::string o = "\""; for (unsigned char ch : s) { if (ch == '"' || ch == '\\') { o += '\\'; o += (char)ch; } else if (ch == '\n') o += "\\n"; else if (ch < 32 || ch > 126) o += '?'; else o += (char)ch; } return o + "\""; };
     auto groupName = [&](const std::vector<int>& g) { std::string s; for (int b : g) { if (!s.empty()) s += " || "; s += defs[(size_t)b].name; } return s; };
